@@ -135,7 +135,7 @@ func (e *Engine) NewMachine() (*Machine, []string) {
 		}
 	}
 	// init
-	ip := &Path{m: m, F: smt.NewFactory(), maxSteps: 1 << 40, maxDec: 0, res: &PathResult{}}
+	ip := &Path{m: m, F: smt.NewFactory(), maxSteps: 1 << 40, maxDec: 0, res: &PathResult{}, lits: map[int]bool{}}
 	m.path = ip
 	var problems []string
 	for _, pkg := range e.initOrder {
@@ -371,7 +371,7 @@ func (e *Engine) Explore(pkgPath, fnName string, b Bounds, nw int, machines []*M
 	}
 	var mu sync.Mutex
 	cond := sync.NewCond(&mu)
-	stack := [][]uint64{{}}
+	stack := []Prefix{{}}
 	active := 0
 	started := 0
 	funcs := map[string]bool{}
@@ -510,7 +510,8 @@ func (e *Engine) Explore(pkgPath, fnName string, b Bounds, nw int, machines []*M
 }
 
 // runPath executes the harness once along the given decision prefix.
-func (m *Machine) runPath(fn *ssa.Function, prefix []uint64, b Bounds, solver *smt.Solver, wantSample bool) (res *PathResult) {
+func (m *Machine) runPath(fn *ssa.Function, pfx Prefix, b Bounds, solver *smt.Solver, wantSample bool) (res *PathResult) {
+	prefix := pfx.Trail
 	res = &PathResult{Funcs: map[string]bool{}, Stubs: map[string]bool{}}
 	if err := solver.Reset(); err != nil {
 		res.End = "fault"
@@ -518,7 +519,11 @@ func (m *Machine) runPath(fn *ssa.Function, prefix []uint64, b Bounds, solver *s
 		return
 	}
 	p := &Path{m: m, F: smt.NewFactory(), solver: solver, printer: smt.NewPrinter(), prefix: prefix,
-		maxSteps: b.MaxSteps, maxDec: b.MaxDecisions, res: res, mapPermMax: 4, wantSample: wantSample}
+		maxSteps: b.MaxSteps, maxDec: b.MaxDecisions, res: res, mapPermMax: 4, wantSample: wantSample,
+		lits: map[int]bool{}, initModel: pfx.Model}
+	if len(prefix) == 0 {
+		p.initModel = nil
+	}
 	m.path = p
 	m.journaling = true
 	m.maxDepth = b.MaxDepth
@@ -568,23 +573,17 @@ func (m *Machine) runPath(fn *ssa.Function, prefix []uint64, b Bounds, solver *s
 			res.End = "panic"
 			msg := m.panicMessage(tp.v)
 			ce := CounterExample{Label: "go-panic", Kind: "panic", Message: msg, Where: m.where(), Trail: append([]uint64{}, p.trail...)}
-			rr, err := p.solver.CheckSat()
-			p.queries++
-			if err == nil && rr == smt.Sat {
-				ce.Vector, _ = p.inputVector(nil)
-			}
+			ce.Vector, _ = p.inputVector(p.anyModel())
 			res.CEs = append(res.CEs, ce)
 		}()
 		m.call(nil, token.NoPos, fn, nil)
 		res.End = "ok"
 	}()
 	if wantSample && (res.End == "ok") {
-		rr, err := p.solver.CheckSat()
-		p.queries++
-		if err == nil && rr == smt.Sat {
-			if vec, ok := p.inputVector(nil); ok {
+		if mdl := p.anyModel(); mdl != nil {
+			if vec, ok := p.inputVector(mdl); ok {
 				res.Sample = vec
-				res.Observed = p.evalObservations()
+				res.Observed = p.evalObservations(mdl)
 			}
 		}
 	}
